@@ -70,17 +70,20 @@ Print Assumptions C13_cfg_contains_surface_execution.
    compound ones as read-modify-write with the OLD VALUE OF THE TARGET AS LEFT
    OPERAND, for an arbitrary value type V, an arbitrary meaning [bop] of the
    twelve operators (none assumed commutative) and of literals [num].
-   [expected_statement] is the plain assignment `x[..] = x[..] op e` the run-time
-   check demands of the real parser; [parse_substitution] mirrors what
-   ast_shortcuts.rs (assign_with_op_shortcut, plusplus, subsub) builds.  Both
-   mean the same as the source form, in every store. *)
-Theorem C13_compound_expansion_sem :
-  forall (N V : Type) (HN : EqDecision N) (HV : EqDecision V)
-         (bop : binop -> V -> V -> V) (num : nat -> V) (s : cstmt N) (st : store N V),
-  exec_stmt bop num (expected_statement s) st = exec_stmt bop num s st.
-Proof. exact (@expected_statement_sem). Qed.
-Print Assumptions C13_compound_expansion_sem.
+   [parse_substitution] mirrors, builder call by builder call, what
+   ast_shortcuts.rs (assign_with_op_shortcut, plusplus, subsub) builds; it means
+   the same as the source form, in every store.
 
+   Second audit: there used to be a second obligation, C13_compound_expansion_sem,
+   with [Spec.SurfaceSpec.expected_statement] in place of [parse_substitution].
+   The two functions are the same function written twice
+   (Proofs.SurfaceProofs.parse_substitution_is_expected_statement:
+   parse_substitution s = expected_statement s, by case analysis and
+   reflexivity), so that was one fact stated twice; it is kept as lemma
+   Proofs.SurfaceProofs.expected_statement_sem and is no obligation any more.
+   For the same reason the run-time comparisons "implementation vs
+   expected_statement" and "implementation vs parse_substitution"
+   (lifteng.forms_compare) are one comparison. *)
 Theorem C13_compound_mirror_sem :
   forall (N V : Type) (HN : EqDecision N) (HV : EqDecision V)
          (bop : binop -> V -> V -> V) (num : nat -> V) (s : cstmt N) (st : store N V),
@@ -88,7 +91,7 @@ Theorem C13_compound_mirror_sem :
 Proof. exact (@parse_substitution_sem). Qed.
 Print Assumptions C13_compound_mirror_sem.
 
-(* the two statements above discriminate: with the operands the other way
+(* the statement above discriminates: with the operands the other way
    round (`x = e - x` for `x -= e`), or with 2 for 1 in `x++`, the assignment
    means something else in some store *)
 Example C13_swapped_operands_differ :
